@@ -210,6 +210,7 @@ def run(rep, tier):
                 rep.violation('not-additive', 'image of the concatenated table differs from the sum of the two images', replay)
     psfphot_images(rep, r, 3 * scale)
     iterative_images(rep, r, 3 * scale)
+    bbox_window_probe(rep, r, 6 * scale)
 
 
 def psfphot_images(rep, r, n):
@@ -263,6 +264,55 @@ def psfphot_images(rep, r, n):
                         rep.violation(f'residual-ne-data-minus-model:{cname}:include_localbkg={inc}',
                                       f'make_residual_image({cname}, include_localbkg={inc}) differs from data - make_model_image by '
                                       f'{float(np.abs(arr - (img2 - mod2)).max()):.3g}', {'sources': srcs, 'sky': sky})
+
+
+def bbox_window_probe(rep, r, n):
+    """(S) without any model_shape the window of a row is the bounding box of the model WITH THAT ROW'S PARAMETERS - also when a size
+    parameter reaches the model through `params_map` from a column of another name: the image of the table equals the sum of the images of
+    its rows and does not depend on the row order (seed C18-r10 reused the first row's window)"""
+    from astropy.modeling.models import Gaussian2D
+    from astropy.table import Table
+    from photutils.datasets import make_model_image
+    from photutils.psf import CircularGaussianPRF, GaussianPSF
+    for k in range(n):
+        kind = ['prf', 'gauss2d', 'gausspsf'][k % 3]
+        ny, nx = r.randint(30, 40), r.randint(30, 40)
+        nrows = r.randint(2, 4)
+        xs = [r.uniform(8, nx - 9) for _ in range(nrows)]
+        ys = [r.uniform(8, ny - 9) for _ in range(nrows)]
+        sizes = [r.choice([2.0, 9.0, 4.5, 6.0]) for _ in range(nrows)]
+        if len(set(sizes)) == 1:
+            sizes[-1] = sizes[0] + 3.5
+        fl = [r.choice([100.0, 50.0]) for _ in range(nrows)]
+        if kind == 'prf':
+            model, xn, yn, fn_, sn = CircularGaussianPRF(), 'x_0', 'y_0', 'flux', 'fwhm'
+        elif kind == 'gausspsf':
+            model, xn, yn, fn_, sn = GaussianPSF(), 'x_0', 'y_0', 'flux', 'x_fwhm'
+        else:
+            model, xn, yn, fn_, sn = Gaussian2D(), 'x_mean', 'y_mean', 'amplitude', 'x_stddev'
+            sizes = [v / 2.355 for v in sizes]
+        via_map = k % 2 == 0
+        scol = 'width_col' if via_map else sn
+        fcol = 'brightness' if via_map else fn_
+        tbl = Table({xn: xs, yn: ys, fcol: fl, scol: sizes})
+        kw = dict(x_name=xn, y_name=yn)
+        if via_map:
+            kw['params_map'] = {fn_: fcol, sn: scol}
+        rp = {'model': kind, 'shape': [ny, nx], 'table': {c: [float(v) for v in tbl[c]] for c in tbl.colnames}, 'kwargs': {kk: vv for kk, vv in kw.items()}}
+        try:
+            with warnings.catch_warnings():
+                warnings.simplefilter('ignore')
+                full = make_model_image((ny, nx), model, tbl, **kw)
+                rev = make_model_image((ny, nx), model, tbl[::-1], **kw)
+                parts = sum(make_model_image((ny, nx), model, tbl[i:i + 1], **kw) for i in range(nrows))
+        except Exception as e:                                  # noqa: BLE001
+            rep.violation(f'make_model_image-raises:bbox-window:{type(e).__name__}', f'make_model_image without model_shape raised {e!r}', rp)
+            continue
+        rep.case(('bbox-window', kind, via_map, tuple(sizes)), True, kind=f'bbox-window:{kind}:' + ('params_map' if via_map else 'named-columns'))
+        rep.probe_only += 1
+        if not (np.allclose(full, parts, rtol=1e-12, atol=1e-12) and np.allclose(full, rev, rtol=1e-12, atol=1e-12)):
+            rep.violation('bbox-window-not-per-row', f'make_model_image without model_shape ({kind}, sizes {sizes} ' + ('through params_map' if via_map else 'in a column named like the parameter')
+                          + f'): total {float(full.sum()):.6g}, rows reversed {float(rev.sum()):.6g}, sum of the single-row images {float(parts.sum()):.6g}', rp)
 
 
 def iterative_images(rep, r, n):
